@@ -14,7 +14,7 @@ import (
 // written as a replay file.
 
 func fuzzEnv(prop string) *runEnv {
-	return &runEnv{prop: prop, tier: "thorough", seed: uint64(os.Getpid()), stats: NewStats(prop), known: LoadKnown(),
+	return &runEnv{prop: prop, tier: "fuzz", seed: uint64(os.Getpid()), stats: NewStats(prop), known: LoadKnown(),
 		replayDir: envOr("VERIF_REPLAY_DIR", "../replays")}
 }
 
